@@ -433,3 +433,35 @@ Definition line_tags (ls : list outline) : list pos :=
   flat_map (fun l => match l with Code _ (Some t) => [Some t] | _ => [] end) ls.
 (* the positioned ones *)
 Definition somes (l : list pos) : list pos := flat_map (fun p => match p with Some t => [Some t] | None => [] end) l.
+
+(* ---- the file name of a directive: cl/stmt.go fileLineFile = filepath.ToSlash(filepath.Rel(relBaseDir, absFile)),
+   for clean absolute slash-separated paths given as lists of components (no ".", no "..", no empty one).
+   runtime.Caller reports the directive's name verbatim; the reader resolves it against the base. ---- *)
+Definition dotdot : str := [46; 46]%N.
+Definition dot1 : str := [46]%N.
+
+Fixpoint strip_common (b t : list str) : list str * list str :=
+  match b, t with
+  | x :: b', y :: t' => if str_eqb x y then strip_common b' t' else (b, t)
+  | _, _ => (b, t)
+  end.
+
+Definition rel_path (base targ : list str) : list str :=
+  let '(b', t') := strip_common base targ in
+  match map (fun _ => dotdot) b' ++ t' with
+  | [] => [dot1]                       (* filepath.Rel(x, x) = "." *)
+  | l => l
+  end.
+
+(* reading a relative name against a base directory: ".." pops, "." stays *)
+Fixpoint resolve_path (acc : list str) (rel : list str) : list str :=
+  match rel with
+  | [] => rev acc
+  | c :: r =>
+      if str_eqb c dotdot then resolve_path (tl acc) r
+      else if str_eqb c dot1 then resolve_path acc r
+      else resolve_path (c :: acc) r
+  end.
+Definition resolve_against (base rel : list str) : list str := resolve_path (rev base) rel.
+
+Definition plain_comp (c : str) : bool := negb (str_eqb c dotdot) && negb (str_eqb c dot1) && negb (match c with [] => true | _ => false end).
